@@ -7,10 +7,17 @@
   function); an event list is a schedule (which task calls what, which awaited lock / send_all / recv_into completes when
   and with what: every fragmentation of the ciphertext, every interleaving of the two directions, injected OSError).
   `run E (St.init e compat) evs = some s` says every event was enabled when it happened.
+
+  The machine mirrors the code WITH docs/C08-fix-2.patch (`St.init` has `wrPolicy := .pendingNoWaiter`): in the WANT_READ
+  branch the send lock is taken only if the outgoing BIO holds bytes and no other task is already queued for that lock.
+  The two earlier versions of that branch (`WrPolicy.always` = no fix, `WrPolicy.pending` = docs/C08-fix-1.patch only) are
+  kept as variants for the negative theorems at the end of this file.
 -/
 import EasyNet.Lemmas.Tls08Laws
 import EasyNet.Lemmas.Tls08CtlStep
 import EasyNet.Lemmas.Tls08Flush
+import EasyNet.Lemmas.Tls08Duplex
+import EasyNet.Lemmas.Tls08Pair
 namespace EasyNet.C08
 open EasyNet
 
@@ -87,9 +94,11 @@ example : (run scriptEngine (St.init exLog true) exEvs).map (fun s => (s.taken, 
     some ([1, 2, 3], [1, 2, 3], [], [120, 121]) := by decide +kernel
 
 /-- a schedule with lock contention: task 2's write leaves 3 bytes in the BIO and is inside `transport.send_all`
-    (holding the send lock) when task 1's read hits WANT_READ and parks on the send lock -/
+    (holding the send lock) when task 1's read hits WANT_READ *and emits one byte* (so it has something to flush) and
+    parks on the send lock -/
 def exLog2 : List (CallKind × Resp) :=
-  [ (.write, { out := .ok 2, cout := [5, 5, 5] }), (.read, { out := .wantRead }), (.read, { out := .ok 1, data := [120] }) ]
+  [ (.write, { out := .ok 2, cout := [5, 5, 5] }), (.read, { out := .wantRead, cout := [4] }),
+    (.read, { out := .ok 1, data := [120] }) ]
 def exEvs2 : List Ev := [.call 2 (.sendAll [97, 98]), .call 1 (.recv 4)]
 
 /-- **C08, the two transport locks are exclusive.**  In every reachable state at most one task is inside
@@ -115,21 +124,28 @@ example : (run scriptEngine (St.init exLog2 true) exEvs2).map (fun s => (s.pc 2,
         business: "fair delivery"), or a lock is free and the head of its queue is runnable;
     (2) *flush before waiting for input*: whenever a step leaves its task waiting for ciphertext (queued for the receive
         lock or inside `transport.recv_into`), that task either just completed its own flush (`wrSend`), or was already
-        queued for the receive lock, or the outgoing BIO is empty at the end of the step.
+        queued for the receive lock, or the outgoing BIO is empty at the end of the step, or (since docs/C08-fix-2.patch)
+        another task is queued on the send lock —
+    (3) — and *whoever is granted the send lock flushes everything*: after the step of a task that was queued on the send
+        lock and got it, the outgoing BIO is empty.  (Before the fix the last alternative of (2) did not exist: the reader
+        queued behind that task instead, which is the full-duplex deadlock, see `C08_lockalways_deadlock`.)
     MISSING for the full statement ("the handshake and every transfer complete under any fair delivery"): a termination
     measure for a closed system of two endpoints under `TlsLaws` (+ the liveness law "read yields as soon as a complete
-    record is available").  That part is exercised, not proved: the real-OpenSSL sessions run on a virtual-time loop on
-    which a hang is detected exactly.  Known limit of the code (see docs/C08.md): with two tasks in the WANT_READ branch at
-    once, the second one waits for fresh input even if the first one's read already fed what it needed. -/
+    record is available").  That part is exercised, not proved: the real-OpenSSL sessions (incl. the full-duplex sessions
+    over bounded pipes) run on a virtual-time loop on which a hang is detected exactly.  Known limit of the code (see
+    docs/C08.md): with two tasks in the WANT_READ branch at once, the second one waits for fresh input even if the first
+    one's read already fed what it needed. -/
 theorem C08_no_deadlock_partial {σ : Type} (E : Engine σ) (e : σ) (compat : Bool) (evs : List Ev) (s : St σ)
     (h : run E (St.init e compat) evs = some s) :
     ((∃ t, s.pc t ≠ .idle) → ∃ t io, (resume E s t io).isSome = true) ∧
     (∀ t io s', resume E s t io = some s' → waitsInput (s'.pc t) = true →
-      (∃ m, s.pc t = .wrSend m) ∨ (∃ m, s.pc t = .rdLock m) ∨ s'.wbio = []) ∧
-    (∀ t a, s.pc t = .idle → waitsInput ((apiCall E s t a).pc t) = true → (apiCall E s t a).wbio = []) := by
+      (∃ m, s.pc t = .wrSend m) ∨ (∃ m, s.pc t = .rdLock m) ∨ s'.wbio = [] ∨ s'.sendLock.waiters ≠ []) ∧
+    (∀ t a, s.pc t = .idle → waitsInput ((apiCall E s t a).pc t) = true →
+      (apiCall E s t a).wbio = [] ∨ (apiCall E s t a).sendLock.waiters ≠ []) ∧
+    (∀ t s', resume E s t .ok = some s' → cls (s.pc t) = .waitS → s'.wbio = []) := by
   have ci := run_CI (E := E) evs _ s (CI.init e compat) h
   exact ⟨progress_of_CIs E s ci, fun t io s' hs hw => resume_flush s s' t io hs hw,
-         fun t a _ hw => apiCall_flush s t a hw⟩
+         fun t a _ hw => apiCall_flush s t a hw, fun t s' hs hc => grant_flushes s s' t hs hc⟩
 
 /-- non-vacuity: in the contended state above an operation is incomplete, and the holder can be resumed -/
 example : (run scriptEngine (St.init exLog2 true) exEvs2).map
@@ -200,5 +216,159 @@ example : (run (nullEngine 1) (St.init {} true) exB).map (fun b => (b.taken, b.r
     some ([97, 98, 99, 100, 101], [97, 98, 99, 100, 101], [], false) := by decide +kernel
 
 example : (nullLaws 1).good {} ∧ Mono (id : Bytes → Bytes) := ⟨⟨rfl, rfl⟩, mono_id⟩
+
+/-! ### full duplex: the WANT_READ branch and the send lock (docs/C08-fix-2.patch) -/
+
+/-- the situation of the full-duplex defect on one endpoint: task 2's `send_all` produced 3 bytes, took the send lock and is
+    parked inside `transport.send_all` (backpressure); then task 1's `recv` hits WANT_READ with an EMPTY outgoing BIO -/
+def exLog3 : List (CallKind × Resp) :=
+  [ (.write, { out := .ok 2, cout := [5, 5, 5] }), (.read, { out := .wantRead }), (.read, { out := .ok 1, data := [120] }) ]
+
+/-- **C08, the reader needs no send lock when it has nothing to flush.**  For every engine, task count and schedule, in
+    every reachable state `s` of the current code:
+    (1) a pass of `_retry_ssl_method` (`attempt`: what `recv`, `recv_into`, `send_all*`, the handshake and every retry run)
+        whose SSL call ends in WANT_READ while the outgoing BIO is empty — or while another task is already queued on the
+        send lock — does not touch the send lock: the lock is unchanged, the task ends the step queued on the RECEIVE lock or
+        inside `transport.recv_into`, and the only actions logged after the SSL call are `acq recv, rcv` (receive lock free)
+        or `park recv`;
+    (2) a task that does wait for the send lock in the WANT_READ branch is the first of that lock's queue (it waits for
+        nobody but the lock's owner) and the outgoing BIO holds bytes to flush. -/
+theorem C08_reader_needs_no_send_lock_when_nothing_pending {σ : Type} (E : Engine σ) (e : σ) (compat : Bool)
+    (evs : List Ev) (s : St σ) (h : run E (St.init e compat) evs = some s) :
+    (∀ t m, (callMeth E t m s).2 = .exc .wantRead →
+      ((callMeth E t m s).1.wbio = [] ∨ s.sendLock.waiters ≠ []) →
+      (attempt E s t m).sendLock = s.sendLock ∧ waitsInput ((attempt E s t m).pc t) = true ∧
+      (attempt E s t m).acts = (callMeth E t m s).1.acts ++
+        (if s.recvLock.free = true then [.acq t .recv, .rcv t] else [.park t .recv])) ∧
+    (∀ t m, s.pc t = .wrLock m → s.sendLock.waiters.head? = some t ∧ s.wbio ≠ []) := by
+  have hpol : s.wrPolicy = .pendingNoWaiter := run_policy evs _ s h
+  exact ⟨fun t m hr hn => attempt_wantRead_direct s t m hpol hr hn,
+         run_WL evs _ s rfl (WLs_init e compat) h⟩
+
+/-- non-vacuity of (1): in the situation `exLog3` the reader goes straight into `transport.recv_into`; the send lock
+    (held by task 2, nobody queued) is untouched -/
+example : (run scriptEngine (St.init exLog3 true) [.call 2 (.sendAll [97, 98])]).map
+    (fun s => ((callMeth scriptEngine 1 (.read 4) s).2, (callMeth scriptEngine 1 (.read 4) s).1.wbio, s.pc 2, s.sendLock)) =
+    some (.exc .wantRead, [], .okSend .writeAll, { locked := true, waiters := [] }) := by decide +kernel
+example : (run scriptEngine (St.init exLog3 true) [.call 2 (.sendAll [97, 98])]).map
+    (fun s => ((attempt scriptEngine s 1 (.read 4)).pc 1, (attempt scriptEngine s 1 (.read 4)).sendLock,
+               (attempt scriptEngine s 1 (.read 4)).acts.drop s.acts.length)) =
+    some (.rdInto (.read 4), { locked := true, waiters := [] },
+          [.ssl 1 (.read 4) 0 { out := .wantRead }, .acq 1 .recv, .rcv 1]) := by decide +kernel
+
+/-- non-vacuity of (2): in the contended state `exLog2` (the read emitted a byte) the reader waits for the send lock, first in
+    the queue, with that byte to flush -/
+example : (run scriptEngine (St.init exLog2 true) exEvs2).map (fun s => (s.pc 1, s.sendLock.waiters.head?, s.wbio)) =
+    some (.wrLock (.read 4), some 1, [(.bio, 4)]) := by decide +kernel
+
+/-- **C08, full-duplex progress: no wait-for edge from "needs ciphertext input" to the send lock's owner, unless the task
+    itself has bytes to flush.**  For every engine, task count and schedule, in every reachable state:
+    (1) a task of the WANT_READ branch waits for the send lock only as the first of its queue and only while the outgoing
+        BIO holds bytes to flush;
+    (2) hence, whenever the outgoing BIO is empty — in particular whenever the send lock's owner is parked inside
+        `transport.send_all` with nothing left to flush, the configuration of the defect — every task that needs input
+        (`needsInput`: the four pcs of the WANT_READ branch) is either the send lock's owner itself flushing its own bytes
+        (`wrSend`), or queued on the RECEIVE lock only, or inside `transport.recv_into`;
+    (3) and the receive side is live: if some task waits for input, then a task is inside `transport.recv_into` (the peer's
+        `send_all` can complete), or the receive lock is free and the head of its queue is runnable.
+    So the circular wait of the defect (reader → own sender → peer's reader → peer's sender → reader) cannot close through
+    the send lock.  What remains unproved is named in `C08_no_deadlock_partial` (termination of whole sessions). -/
+theorem C08_duplex_progress {σ : Type} (E : Engine σ) (e : σ) (compat : Bool) (evs : List Ev) (s : St σ)
+    (h : run E (St.init e compat) evs = some s) :
+    (∀ t m, s.pc t = .wrLock m → s.sendLock.waiters.head? = some t ∧ s.wbio ≠ []) ∧
+    (s.wbio = [] → ∀ t, needsInput (s.pc t) = true →
+      (∃ m, s.pc t = .wrSend m) ∨ (∃ m, s.pc t = .rdLock m) ∨ (∃ m, s.pc t = .rdInto m)) ∧
+    ((∃ t, waitsInput (s.pc t) = true) → ∃ u, (∃ m, s.pc u = .rdInto m) ∨
+      (s.recvLock.locked = false ∧ s.recvLock.waiters.head? = some u ∧ (resume E s u .ok).isSome = true)) := by
+  have wl := run_WL evs _ s rfl (WLs_init e compat) h
+  have ci := run_CI (E := E) evs _ s (CI.init e compat) h
+  exact ⟨wl, fun hw t hn => needsInput_past_send_lock s wl hw t hn, fun ⟨t, ht⟩ => recv_side_live s ci t ht⟩
+
+/-- non-vacuity: the configuration of the defect on one endpoint — owner of the send lock parked in `transport.send_all`,
+    BIO empty, the reader needs input — and the reader is inside `transport.recv_into` -/
+example : (run scriptEngine (St.init exLog3 true) [.call 2 (.sendAll [97, 98]), .call 1 (.recv 4)]).map
+    (fun s => (s.pc 2, s.wbio, needsInput (s.pc 1), s.pc 1)) =
+    some (.okSend .writeAll, [], true, .rdInto (.read 4)) := by decide +kernel
+example : (run scriptEngine (St.init exLog3 true) [.call 2 (.sendAll [97, 98]), .call 1 (.recv 4)]).map
+    (fun s => (s.sendLock, s.recvLock)) =
+    some ({ locked := true, waiters := [] }, { locked := true, waiters := [] }) := by decide +kernel
+
+/-! ### the negative side: the two earlier versions of the WANT_READ branch deadlock
+
+    A closed system of two endpoints (Lemmas/Tls08Pair.lean): null cipher, two pipes of 4 bytes, `send_all` of the wrapped
+    transport copies what fits and waits, `recv_into` hands out what is there.  `Pair.deadlocked E p ts`: every task of `ts`
+    is inside an API call on both sides and no lock hand-over, no copy into a pipe, no completion of a `send_all` /
+    `recv_into` is enabled (`pstep_idle`: events of idle tasks are never enabled). -/
+
+/-- both sides: task 2 sends 6 bytes (the pipe holds 4), then task 1 calls `recv` -/
+def dupEvs : List PEv :=
+  [ .call .a 2 (.sendAll [1, 2, 3, 4, 5, 6]), .call .b 2 (.sendAll [11, 12, 13, 14, 15, 16]), .copy .a, .copy .b,
+    .call .a 1 (.recv 8), .call .b 1 (.recv 8) ]
+
+/-- **the full-duplex deadlock of the code before the fix** (`WrPolicy.always`: the WANT_READ branch takes the send lock
+    even with nothing to flush).  After `dupEvs` each side's sender owns the send lock and is parked in
+    `transport.send_all` with 2 bytes that do not fit into the full pipe; each side's reader hit WANT_READ with an empty
+    outgoing BIO and queued on the send lock behind its own sender; nobody is in `recv_into`: the senders' completion
+    depends on the peer's reader, which depends on its own sender.  Every task waits, nothing can move. -/
+theorem C08_lockalways_deadlock :
+    (prun (nullEngine 9) (Pair.init {} .always 4 8) dupEvs).any (fun p =>
+      p.a.pc 1 == .wrLock (.read 8) && p.a.pc 2 == .okSend .writeAll && p.b.pc 1 == .wrLock (.read 8) &&
+      p.b.pc 2 == .okSend .writeAll && p.a.wbio == [] && p.b.wbio == [] &&
+      p.a.sendLock == { locked := true, waiters := [1] } && p.b.sendLock == { locked := true, waiters := [1] } &&
+      p.a.recvLock == {} && p.b.recvLock == {} &&
+      p.ab == { buf := [1, 2, 3, 4], rest := [5, 6], busy := true } &&
+      p.ba == { buf := [11, 12, 13, 14], rest := [15, 16], busy := true } &&
+      p.deadlocked (nullEngine 9) [1, 2]) = true := by decide +kernel
+
+/-- the same schedule with the current code: the readers are inside `recv_into`, no deadlock — -/
+example :
+    (prun (nullEngine 9) (Pair.init {} .pendingNoWaiter 4 8) dupEvs).map
+      (fun p => (p.a.pc 1, p.a.pc 2, p.b.pc 1, p.b.pc 2, p.deadlocked (nullEngine 9) [1, 2])) =
+    some (.rdInto (.read 8), .okSend .writeAll, .rdInto (.read 8), .okSend .writeAll, false) := by decide +kernel
+
+/-- — and the transfer can be completed: each side has read exactly what the other wrote, everything is idle and empty -/
+example :
+    (prun (nullEngine 9) (Pair.init {} .pendingNoWaiter 4 8)
+        (dupEvs ++ [ .recv .a 1, .recv .b 1, .copy .a, .copy .b, .sent .a 2, .sent .b 2, .call .a 1 (.recv 8),
+                     .call .b 1 (.recv 8), .recv .a 1, .recv .b 1 ])).any (fun p =>
+      p.a.returned == [11, 12, 13, 14, 15, 16] && untag p.b.written == [11, 12, 13, 14, 15, 16] &&
+      p.b.returned == [1, 2, 3, 4, 5, 6] && untag p.a.written == [1, 2, 3, 4, 5, 6] &&
+      p.a.pc 1 == .idle && p.a.pc 2 == .idle && p.b.pc 1 == .idle && p.b.pc 2 == .idle && p.ab == {} && p.ba == {}) = true := by
+  decide +kernel
+
+/-- both sides: task 2 sends 6 bytes, task 3 sends 2 more (its record is written into the BIO, then it queues on the send
+    lock), then task 1 calls `recv` -/
+def dup2Evs : List PEv :=
+  [ .call .a 2 (.sendAll [1, 2, 3, 4, 5, 6]), .call .a 3 (.sendAll [7, 8]),
+    .call .b 2 (.sendAll [11, 12, 13, 14, 15, 16]), .call .b 3 (.sendAll [17, 18]), .copy .a, .copy .b,
+    .call .a 1 (.recv 8), .call .b 1 (.recv 8) ]
+
+/-- **the residual deadlock of docs/C08-fix-1.patch alone** (`WrPolicy.pending`: the send lock is taken whenever the BIO is
+    not empty).  With two concurrent `send_all` tasks per side the BIO holds the record of the SECOND sender (queued on the
+    send lock) when the reader hits WANT_READ: the reader queues behind it, nobody reads, both pipes are full. -/
+theorem C08_fix1_residual_deadlock :
+    (prun (nullEngine 9) (Pair.init {} .pending 4 8) dup2Evs).any (fun p =>
+      p.a.pc 1 == .wrLock (.read 8) && p.a.pc 2 == .okSend .writeAll && p.a.pc 3 == .okLock .writeAll &&
+      p.b.pc 1 == .wrLock (.read 8) && p.b.pc 2 == .okSend .writeAll && p.b.pc 3 == .okLock .writeAll &&
+      untag p.a.wbio == [7, 8] && untag p.b.wbio == [17, 18] &&
+      p.a.sendLock == { locked := true, waiters := [3, 1] } && p.b.sendLock == { locked := true, waiters := [3, 1] } &&
+      p.ab.buf.length == 4 && p.ba.buf.length == 4 && p.deadlocked (nullEngine 9) [1, 2, 3]) = true := by decide +kernel
+
+/-- the same schedule with the current code: somebody is already queued on the send lock (and will flush), so the readers go
+    straight into `recv_into`; and the whole transfer can be completed, in order -/
+example :
+    (prun (nullEngine 9) (Pair.init {} .pendingNoWaiter 4 8) dup2Evs).map
+      (fun p => (p.a.pc 1, p.a.pc 3, p.a.sendLock, p.deadlocked (nullEngine 9) [1, 2, 3])) =
+    some (.rdInto (.read 8), .okLock .writeAll, { locked := true, waiters := [3] }, false) := by decide +kernel
+
+example :
+    (prun (nullEngine 9) (Pair.init {} .pendingNoWaiter 4 8)
+        (dup2Evs ++ [ .recv .a 1, .recv .b 1, .copy .a, .copy .b, .sent .a 2, .sent .b 2, .grant .a 3, .grant .b 3, .copy .a,
+                      .copy .b, .sent .a 3, .sent .b 3, .call .a 1 (.recv 8), .call .b 1 (.recv 8), .recv .a 1,
+                      .recv .b 1 ])).any (fun p =>
+      p.a.returned == [11, 12, 13, 14, 15, 16, 17, 18] && p.b.returned == [1, 2, 3, 4, 5, 6, 7, 8] &&
+      untag p.a.written == [1, 2, 3, 4, 5, 6, 7, 8] && p.a.pc 1 == .idle && p.a.pc 2 == .idle && p.a.pc 3 == .idle &&
+      p.ab == {} && p.ba == {}) = true := by
+  decide +kernel
 
 end EasyNet
